@@ -8,6 +8,8 @@ re-extracted from the C sources on every check (see tools/gen_params.py).
   float_cmp_shape_ok             Float_Cmp is sign of the double difference
   table_cmp_by_lookup            true: Table_Cmp first compares by lookup (repaired); false: slot-order walk only
   xor_fold_shape_ok              Array/List/Tuple/Table/Tree_Hash XOR the hashes of all elements
+  memswap_shape_ok               memswap swaps bytes 0..s-1; swap calls it with size(type) for objects of one type
+  copy_shape_ok                  copy = the type's Copy instance, else assign(alloc(type_of(self)), self)
 """
 import re
 
@@ -84,3 +86,15 @@ def generate(repo, emit, src, func_body):
         if body != want:
             good = False
     emit('xor_fold_shape_ok', 'Definition xor_fold_shape_ok : bool := true.' if good else None)
+
+    a = src('src/Assign.c')
+    ms = norm(func_body(a, r'static\s+void\s+memswap\s*\([^)]*\)\s*\{'))
+    sw = norm(func_body(a, r'void\s+swap\s*\(\s*var\s+self\s*,\s*var\s+obj\s*\)\s*\{'))
+    ok = (ms == '{if(p0==p1){return;}for(size_ti=0;i<s;i++){chart=((char*)p0)[i];((char*)p0)[i]=((char*)p1)[i];((char*)p1)[i]=t;}}'
+          and sw.startswith('{structSwap*s=instance(self,Swap);if(sands->swap){s->swap(self,obj);return;}'
+                            'size_tn=size(type_of(self));if(type_of(self)istype_of(obj)andn){memswap(self,obj,n);return;}'))
+    emit('memswap_shape_ok', 'Definition memswap_shape_ok : bool := true.' if ok else None)
+    al = src('src/Alloc.c')
+    cp = norm(func_body(al, r'var\s+copy\s*\(\s*var\s+self\s*\)\s*\{'))
+    emit('copy_shape_ok', 'Definition copy_shape_ok : bool := true.'
+         if cp == '{structCopy*c=instance(self,Copy);if(candc->copy){returnc->copy(self);}returnassign(alloc(type_of(self)),self);}' else None)
